@@ -141,7 +141,7 @@ func runC07(c *Ctx) error {
 		src, mode string
 	}
 	var jobs []job
-	wantVals := []string{"6", "405", "12", "3", "3", "4", "103", "50", "5.5", "248", "112", "207", "6", "29"} // the value of each corpus program's last variable
+	wantVals := []string{"6", "405", "12", "3", "3", "4", "103", "50", "5.5", "248", "112", "207", "6", "29", "630"} // the value of each corpus program's last variable
 	corpus := []string{
 		"func ok(a int) bool { return a > 0 }; func f(a int) int { x := 5; switch { case ok(a): x = 6 }; return x }; y := f(1)",
 		"var n = 0; func inc() int { n++; return n }; func f() int { i := 0; for inc(); i < 4; inc() { i++ }; return i*100 + n }; x := f()",
@@ -157,6 +157,8 @@ func runC07(c *Ctx) error {
 		"const ( _ = iota; KB; MB ); func size(n int) int { const ( _ = iota + 5; a; _; b ); const _ = 7; return n*MB + b - a }; func pick() int { const _ = 9; return 5 }; func caller() int { a := 100; return a*2 + pick() + size(0) }; x := caller()",
 		"func f() int { m := map[string]int{\"a\": 3}; v, _ := m[\"a\"]; _, ok := m[\"b\"]; w, ok2 := m[\"a\"]; var u, _ = m[\"zz\"]; if ok || !ok2 { return 0 }; return v + w + u }; x := f()",
 		"func f() int { a := 1; s := []int{3: 7}; t := []int{0: 7, 1: 8}; u := [][]int{1: {2: 5}}; b := 2; return a + b + s[3] + len(s) + t[1] + len(t) + u[1][2] }; x := f()",
+		// frames entered one after the other at the same stack height: the second one's locals start as its own
+		"func a() float64 { x := 1.5; var b byte = 9; c := x * 2; return c + float64(b) }; func b() int { h := 7; w := 300; k := h / 2; return k + w }; func f() int { p := a(); q := b(); r := a(); return q + b() + int(p+r) }; x := f()",
 	}
 	// callees with 0..6 leading locals that range over a nil slice / nil map after a non-nil one, called from a
 	// frame with eight live locals: the loop's hidden slots must stay inside the callee's frame
@@ -180,6 +182,15 @@ func runC07(c *Ctx) error {
 	}
 	for _, s := range corpus {
 		jobs = append(jobs, job{s, "strict"})
+	}
+	{ // more local slots than a packed operand can name: if this compiles at all, the checker sees every slot operand
+		var sb strings.Builder
+		sb.WriteString("func big(xs []int) int {\n")
+		for i := 0; i < 32770; i++ {
+			fmt.Fprintf(&sb, "\tv%d := 1\n\t_ = v%d\n", i, i)
+		}
+		sb.WriteString("\ts := 0\n\tfor k, x := range xs {\n\t\ts += k + x\n\t}\n\treturn s\n}\ny := big([]int{10, 20, 30})\n")
+		jobs = append(jobs, job{sb.String(), "strict"})
 	}
 	for _, s := range harvestTestStrings(repo) {
 		jobs = append(jobs, job{s, "lenient"})
@@ -261,7 +272,33 @@ func runC07(c *Ctx) error {
 	return nil
 }
 
+// c07ManyLocals: a function with more local slots than an instruction's packed operand can name (a range loop packs
+// its key and value slots into 16 bits each): the program is rejected or runs right - it never writes outside its frame
+func (c *Ctx) c07ManyLocals() {
+	for _, n := range []int{32700, 32770, 40000} {
+		var sb strings.Builder
+		sb.WriteString("func big(xs []int) int {\n")
+		for i := 0; i < n; i++ {
+			fmt.Fprintf(&sb, "\tv%d := 1\n\t_ = v%d\n", i, i)
+		}
+		sb.WriteString("\ts := 0\n\tfor k, x := range xs {\n\t\ts += k + x\n\t}\n\treturn s\n}\nfunc outer() int {\n\ta, b, c, d := 1, 2, 3, 4\n\tr := big([]int{10, 20, 30})\n\treturn r*1000 + a + b + c + d\n}\ny := outer()\n")
+		for _, opt := range []bool{false, true} {
+			vm := goat.New()
+			_, err := vm.VerifEval(sb.String(), opt)
+			c.Rep.Oracle["many-locals"]++
+			if err != nil {
+				c.Rep.Count("many-locals-rejected")
+				continue
+			}
+			if got := vm.Get("main.y").String(); got != "63010" {
+				c.Rep.Violate(Violation{Kind: "oracle", Cut: "many-locals", Input: fmt.Sprintf("a function with %d locals and a range loop, called from a frame with four locals (optimize=%v)", n, opt), Impl: "y = " + got, Oracle: "63010, or an error"})
+			}
+		}
+	}
+}
+
 func (c *Ctx) c07RunCorpus(corpus, wantVals []string) {
+	c.c07ManyLocals()
 	// statement-only programs leave no residual values, and compute what Go computes (the value of their last
 	// top-level variable, worked out by hand: these programs exercise frames above a caller's locals)
 	for i, s := range corpus {
